@@ -37,6 +37,7 @@ package hal
 //@   modifies links, attaches, attachT, attachC, stateSets, stateT, stateArg, kfmt.outputSink, kfmt.ringBuffer.rIndex, elems(uint8), kfmt.outLen, kfmt.out
 //@   at call SetOutputSink 1: assert attaches == old(attaches) + 1 && attachT == devices.activeTTY && attachC == devices.activeConsole && stateSets == old(stateSets)
 //@   at call SetState 1: assert kfmt.rlen(&kfmt.earlyPrintBuffer) == 0
+//@   ensures rb: kfmt.wfRB(&kfmt.earlyPrintBuffer)
 //@   ensures once: links == old(links) + 1 && attaches == old(attaches) + 1 && stateSets == old(stateSets) + 1
 //@   ensures attached: attachT == devices.activeTTY && attachC == devices.activeConsole
 //@   ensures active: stateT == devices.activeTTY && stateArg == tty.StateActive
@@ -66,6 +67,7 @@ package hal
 //@   requires !isnil(cons) && kfmt.wfRB(&kfmt.earlyPrintBuffer)
 //@   modifies devices.activeConsole, links, attaches, attachT, attachC, stateSets, stateT, stateArg, kfmt.outputSink, kfmt.ringBuffer.rIndex, elems(uint8), kfmt.outLen, kfmt.out
 //@   ensures tty: devices.activeTTY == old(devices.activeTTY)
+//@   ensures rb: kfmt.wfRB(&kfmt.earlyPrintBuffer)
 //@   ensures later: !isnil(old(devices.activeConsole)) ==> devices.activeConsole == old(devices.activeConsole) && links == old(links) && attaches == old(attaches) && stateSets == old(stateSets) && kfmt.outputSink == old(kfmt.outputSink) && kfmt.outLen == old(kfmt.outLen)
 //@   ensures first: isnil(old(devices.activeConsole)) ==> devices.activeConsole == cons && links == old(links) + ite(isnil(devices.activeTTY), 0, 1)
 //@   ensures linked: isnil(old(devices.activeConsole)) && !isnil(devices.activeTTY) ==> attachT == devices.activeTTY && attachC == cons && stateT == devices.activeTTY && stateArg == tty.StateActive && kfmt.rlen(&kfmt.earlyPrintBuffer) == 0
@@ -76,9 +78,83 @@ package hal
 //@ func onDriverInit(info *device.DriverInfo, drv device.Driver)
 //@   property C16
 //@   requires !isnil(drv) && kfmt.wfRB(&kfmt.earlyPrintBuffer)
-//@   modifies devices.activeConsole, devices.activeTTY, links, attaches, attachT, attachC, stateSets, stateT, stateArg, kfmt.outputSink, kfmt.ringBuffer.rIndex, elems(uint8), kfmt.outLen, kfmt.out
+//@   at entry: ghost initLog = upd(initLog, inits, drv)
+//@   at entry: ghost inits = inits + 1
+//@   ensures logged: inits == old(inits) + 1 && initLog == upd(old(initLog), old(inits), drv)
+//@   ensures rb: kfmt.wfRB(&kfmt.earlyPrintBuffer)
+//@   modifies inits, initLog, devices.activeConsole, devices.activeTTY, links, attaches, attachT, attachC, stateSets, stateT, stateArg, kfmt.outputSink, kfmt.ringBuffer.rIndex, elems(uint8), kfmt.outLen, kfmt.out
 //@   ensures other: !implements(drv, console.Device) && !implements(drv, tty.Device) ==> devices.activeConsole == old(devices.activeConsole) && devices.activeTTY == old(devices.activeTTY) && links == old(links)
 //@   ensures latertty: !implements(drv, console.Device) && implements(drv, tty.Device) && !isnil(old(devices.activeTTY)) ==> devices.activeConsole == old(devices.activeConsole) && devices.activeTTY == old(devices.activeTTY) && links == old(links) && attaches == old(attaches) && kfmt.outputSink == old(kfmt.outputSink)
 //@   ensures firsttty: !implements(drv, console.Device) && implements(drv, tty.Device) && isnil(old(devices.activeTTY)) ==> !isnil(devices.activeTTY) && devices.activeConsole == old(devices.activeConsole) && links == old(links) + ite(isnil(devices.activeConsole), 0, 1)
 //@   ensures ttylinked: !implements(drv, console.Device) && implements(drv, tty.Device) && isnil(old(devices.activeTTY)) && !isnil(devices.activeConsole) ==> attachT == devices.activeTTY && attachC == devices.activeConsole && stateT == devices.activeTTY && stateArg == tty.StateActive && kfmt.rlen(&kfmt.earlyPrintBuffer) == 0
 //@   ensures console: implements(drv, console.Device) ==> devices.activeTTY == old(devices.activeTTY) && (!isnil(old(devices.activeConsole)) ==> devices.activeConsole == old(devices.activeConsole) && links == old(links)) && (isnil(old(devices.activeConsole)) ==> !isnil(devices.activeConsole) && links == old(links) + ite(isnil(devices.activeTTY), 0, 1))
+
+// ---- probing (C16) ------------------------------------------------------------------------------
+// ghost record of the probe/init traffic. Driver methods and the probe functions are dynamic
+// calls: ASSUMED to touch none of the HAL's state, the terminal events or the early buffer's
+// indices (their log output is the ghost log)
+//@ ghost probes uintptr
+//@ ghost probeLog map[uintptr]device.DetectOrder
+//@ ghost initCalls uintptr
+//@ ghost initFails uintptr
+//@ ghost inits uintptr
+//@ ghost initLog map[uintptr]device.Driver
+
+//@ func probe@DriverInfo.Probe() (drv device.Driver)
+//@   trusted
+//@   modifies probes
+//@   ensures probes == old(probes) + 1
+
+//@ func (d device.Driver) DriverName() (name string)
+//@   trusted
+//@ func (d device.Driver) DriverVersion() (major uint16, minor uint16, patch uint16)
+//@   trusted
+//@ func (d device.Driver) DriverInit(w io.Writer) (err *kernel.Error)
+//@   trusted
+//@   modifies initCalls, initFails, kfmt.outLen, kfmt.out, elems(uint8)
+//@   ensures initCalls == old(initCalls) + 1 && initFails == old(initFails) + ite(err != nil, 1, 0)
+//@ func (b *bytes.Buffer) Reset()
+//@   trusted
+//@   modifies elems(uint8)
+//@ func (b *bytes.Buffer) Bytes() (p []byte)
+//@   trusted
+
+// probe: every entry of the list is probed, in list order; a driver is handed to onDriverInit
+// and appended to the active drivers exactly when its probe returned a driver and its
+// initialisation returned no error - in that order, once each
+//@ func probe(driverInfoList device.DriverInfoList)
+//@   property C16
+//@   requires kfmt.wfRB(&kfmt.earlyPrintBuffer) && len(devices.activeDrivers) >= 0 && len(devices.activeDrivers) < 0x1000000 && len(driverInfoList) < 0x1000000
+//@   requires forall(k, int, 0 <= k && k < len(driverInfoList) ==> driverInfoList[k] != nil)
+//@   modifies probes, probeLog, initCalls, initFails, inits, initLog, devices.activeConsole, devices.activeTTY, devices.activeDrivers, elems(device.Driver), links, attaches, attachT, attachC, stateSets, stateT, stateArg, kfmt.outputSink, kfmt.ringBuffer.rIndex, elems(uint8), kfmt.outLen, kfmt.out
+//@   at call Probe 1: ghost probeLog = upd(probeLog, probes, info.Order)
+//@   ensures all: probes == old(probes) + uintptr(len(driverInfoList)) && forall(k, int, 0 <= k && k < len(driverInfoList) ==> probeLog[old(probes) + uintptr(k)] == old(driverInfoList[k].Order))
+//@   ensures ok: inits - old(inits) == (initCalls - old(initCalls)) - (initFails - old(initFails))
+//@   ensures active: len(devices.activeDrivers) == old(len(devices.activeDrivers)) + int(inits - old(inits))
+//@   loop 1 (range driverInfoList) invariant rangeindex >= -1 && rangeindex < len(driverInfoList) && kfmt.wfRB(&kfmt.earlyPrintBuffer)
+//@   loop 1 invariant cnt: probes == old(probes) + uintptr(rangeindex + 1)
+//@   loop 1 invariant all: forall(k, int, 0 <= k && k <= rangeindex ==> probeLog[old(probes) + uintptr(k)] == old(driverInfoList[k].Order))
+//@   loop 1 invariant same: forall(k, int, 0 <= k && k < len(driverInfoList) ==> driverInfoList[k] == old(driverInfoList[k]) && driverInfoList[k].Order == old(driverInfoList[k].Order))
+//@   loop 1 invariant ok: inits - old(inits) == (initCalls - old(initCalls)) - (initFails - old(initFails)) && inits - old(inits) <= uintptr(rangeindex + 1)
+//@   loop 1 invariant active: len(devices.activeDrivers) == old(len(devices.activeDrivers)) + int(inits - old(inits))
+
+// DetectHardware: the registered drivers are sorted by detection order and probed in that
+// order, so the probe sequence is non-decreasing in detection order whatever the registration
+// order was. sort.Sort is standard-library code: ASSUMED to leave the list sorted with respect
+// to the list's own Less (whose contract, with Len and Swap, is proved in package device)
+//@ pred sortedList(l device.DriverInfoList) = forall(i, int, j, int, 0 <= i && i < j && j < len(l) ==> l[i].Order <= l[j].Order)
+//@ func sort.Sort(data sort.Interface)
+//@   trusted
+//@   requires typeis(data, device.DriverInfoList)
+//@   modifies elems(*device.DriverInfo)
+//@   ensures sortedList(unbox(data, device.DriverInfoList))
+//@   ensures forall(k, int, 0 <= k && k < len(unbox(data, device.DriverInfoList)) ==> unbox(data, device.DriverInfoList)[k] != nil)
+
+//@ func DetectHardware()
+//@   property C16
+//@   requires kfmt.wfRB(&kfmt.earlyPrintBuffer) && len(devices.activeDrivers) >= 0 && len(devices.activeDrivers) < 0x1000000 && len(device.registeredDrivers) >= 0 && len(device.registeredDrivers) < 0x1000000
+//@   modifies elems(*device.DriverInfo), probes, probeLog, initCalls, initFails, inits, initLog, devices.activeConsole, devices.activeTTY, devices.activeDrivers, elems(device.Driver), links, attaches, attachT, attachC, stateSets, stateT, stateArg, kfmt.outputSink, kfmt.ringBuffer.rIndex, elems(uint8), kfmt.outLen, kfmt.out
+//@   ensures all: probes == old(probes) + uintptr(len(device.registeredDrivers))
+//@   ensures order: forall(k, int, l, int, 0 <= k && k < l && l < len(device.registeredDrivers) ==> probeLog[old(probes) + uintptr(k)] <= probeLog[old(probes) + uintptr(l)])
+//@   ensures ok: inits - old(inits) == (initCalls - old(initCalls)) - (initFails - old(initFails))
+//@   ensures active: len(devices.activeDrivers) == old(len(devices.activeDrivers)) + int(inits - old(inits))
